@@ -36,10 +36,14 @@ func runC30(c *an.Ctx) {
 	n := orderRuleFuncsX(c, cg, fns, map[string]string{}, "order", nil, func(fn *ssa.Function) string { return an.FuncName(fn) }, true)
 	c.RequireMin("map-range loops on the chain-config path", n, 1)
 	// GetPeersConfig's loop must be among them
-	c.Check(len(an.MapLoops(gpc)) == 1, "order|GetPeersConfig|ranges-the-pool-map", "the peer list is produced by one loop over the peer-pool map (the rule instance this property is about)", c.P.Rel(gpc.Pos()), fmt.Sprintf("%d map loops", len(an.MapLoops(gpc))))
+	var gpcLoops []*an.MapLoop
+	for _, g := range an.InlineReach(gpc) {
+		gpcLoops = append(gpcLoops, an.MapLoops(g)...)
+	}
+	c.Check(len(gpcLoops) == 1, "order|GetPeersConfig|ranges-the-pool-map", "the peer list is produced by one loop over the peer-pool map (the rule instance this property is about)", c.P.Rel(gpc.Pos()), fmt.Sprintf("%d map loops", len(an.MapLoops(gpc))))
 
 	// the table entry VBFTPeerStakeInfo.PeerPubkey rests on this: the loop fills the field from the pool entry's own key
-	if loops := an.MapLoops(gpc); len(loops) == 1 {
+	if loops := gpcLoops; len(loops) == 1 {
 		cfg0 := &an.OrderCfg{UniqueFields: uniqueFieldsTable}
 		var elem types.Type
 		if sl, ok := gpc.Signature.Results().At(0).Type().Underlying().(*types.Slice); ok {
@@ -57,10 +61,12 @@ func runC30(c *an.Ctx) {
 	c.Check(why == "", "order|GenesisChainConfig|sorts-input-first", "GenesisChainConfig sorts its peer list, with a total comparator, before any other use (the result cannot depend on the order of the input peers)", c.P.Rel(gcc.Pos()), why)
 	// descending by stake: the comparator returns true on peers[i].InitPos > peers[j].InitPos
 	var sortCall *ssa.Call
-	for _, k := range an.Calls(gcc) {
-		if f := k.Common().StaticCallee(); f != nil && an.DefaultSorter(f) {
-			if kk, ok := k.(*ssa.Call); ok {
-				sortCall = kk
+	for _, g := range an.InlineReach(gcc) {
+		for _, k := range an.Calls(g) {
+			if f := k.Common().StaticCallee(); f != nil && an.DefaultSorter(f) {
+				if kk, ok := k.(*ssa.Call); ok {
+					sortCall = kk
+				}
 			}
 		}
 	}
@@ -68,23 +74,23 @@ func runC30(c *an.Ctx) {
 		c.Violate("order|GenesisChainConfig|stake-descending", "peers are ordered by stake, highest first", c.P.Rel(gcc.Pos()), "no sorter call")
 	} else {
 		desc := false
-		if mc, ok := sortCall.Call.Args[1].(*ssa.MakeClosure); ok {
-			less := mc.Fn.(*ssa.Function)
-			i, j := less.Params[0], less.Params[1]
+		// the comparator: the closure, or the named function it forwards to (less(peers[i], peers[j]))
+		if less, ofI, ofJ := an.ComparatorBody(sortCall); less != nil {
 			for _, b := range less.Blocks {
 				iff, isIf := b.Instrs[len(b.Instrs)-1].(*ssa.If)
 				if !isIf {
 					continue
 				}
 				bo, isB := iff.Cond.(*ssa.BinOp)
-				if !isB || bo.Op != token.GTR {
+				if !isB || (bo.Op != token.GTR && bo.Op != token.LSS) {
 					continue
 				}
 				fx, fy := fieldOfLoad(bo.X), fieldOfLoad(bo.Y)
 				if fx == nil || fy == nil || fx != fy || fx.Name() != "InitPos" {
 					continue
 				}
-				if !indexedBy(bo.X, i) || !indexedBy(bo.Y, j) {
+				// first.InitPos > second.InitPos, or second.InitPos < first.InitPos
+				if !(bo.Op == token.GTR && ofI(bo.X) && ofJ(bo.Y) || bo.Op == token.LSS && ofJ(bo.X) && ofI(bo.Y)) {
 					continue
 				}
 				// the true successor returns true
@@ -243,7 +249,13 @@ func runC29(c *an.Ctx) {
 	// (2)+(3) appends to the participant list
 	// the list: the slice value from which the proposer slice is taken; identify appends whose result flows into the header phis of `peers`
 	nApp := 0
-	for _, b := range cpp.Blocks {
+	// calcParticipantPeers and the private helpers its selection loops may be moved to
+	var hostBlocks []*ssa.BasicBlock
+	for _, g := range an.InlineReach(cpp) {
+		hostBlocks = append(hostBlocks, g.Blocks...)
+	}
+	for _, b := range hostBlocks {
+		host := b.Parent()
 		for _, in := range b.Instrs {
 			k, ok := in.(*ssa.Call)
 			if !ok {
@@ -286,7 +298,7 @@ func runC29(c *an.Ctx) {
 				l, isL := e.Tuple.(*ssa.Lookup)
 				return isL && l.CommaOk && sameID(l.Index) && l.X == mu.Map
 			}}
-			v := an.Guarded(c.P, cpp, []*an.Guard{g}, func(x ssa.Instruction) bool { return x == ssa.Instruction(k) }, false)
+			v := an.Guarded(c.P, host, []*an.Guard{g}, func(x ssa.Instruction) bool { return x == ssa.Instruction(k) }, false)
 			c.Check(v.Holds && v.GuardSites == 1, key+"|only-if-absent", "an id is appended to the participant list only when the membership set does not contain it, and is then recorded in the set (the list has no duplicates)", c.P.Rel(k.Pos()), v.Witness)
 			// membership: source of id
 			okSrc := false
@@ -350,7 +362,7 @@ func runC29(c *an.Ctx) {
 	c.Check(okRet, "member|calcParticipant|returns-table-entry", "calcParticipant returns an element of the position table (or the constant out-of-range marker)", c.P.Rel(cp.Pos()), "a return value is not dposTable[...]")
 	// the marker is excluded before the append: comparison of the call result with a constant, leaving the loop
 	excl := false
-	for _, k := range an.Calls(cpp) {
+	for _, k := range an.CallsToReach(cpp, funcObj(cp)) {
 		if k.Common().StaticCallee() != cp || k.Value() == nil || k.Value().Referrers() == nil {
 			continue
 		}
